@@ -933,6 +933,10 @@ class Pass2(CompilePass):
                 node=node)
 
     def process_binary_op_pre(self, node):
+        if node.left.type.is_array or node.right.type.is_array:
+            # a whole array is not a value
+            raise CompileError(EC.TYPE_MISMATCH, node=node)
+
         if node.op.is_comparison:
             if node.left.type.is_numeric and \
                not node.right.type.is_numeric:
